@@ -70,6 +70,10 @@ def analyse(ck, tier, builds, prefix=''):
                 key = f"{base}/plane{p}"
                 if len(buf.stores) != 1:
                     ck.ob(key, 'UNDECIDED', f"{len(buf.stores)} store summaries"); continue
+                from .c11 import every_sample_written
+                why = every_sample_written(it, planes, p, st.pc)
+                if why is not None:
+                    ck.ob(key + '/coverage', 'REFUTED' if 'lemma side condition' in why else 'UNDECIDED', f"not every sample of plane {p} is stored (samples keep the fill value): {why}")
                 val = R.resolve(buf.stores[0].value)
                 an = Analyzer()
                 an.elide_clamp = False
